@@ -200,14 +200,22 @@ impl Drop for DriverSim {
 impl DriverSim {
     /// Build a node driver over `root` (like `antnode` does), never running it.
     pub fn new_node(root: &Path, keypair: Keypair, store: Option<(usize, usize)>) -> DriverSim {
+        Self::new_node_chan(root, keypair, store, None)
+    }
+
+    /// `chan`: capacity of the driver's local command channel (shipped: 10 000). With a handful of slots a
+    /// burst of a few unacknowledged writes reaches "the channel is full", which a node only sees under load.
+    pub fn new_node_chan(root: &Path, keypair: Keypair, store: Option<(usize, usize)>, chan: Option<usize>) -> DriverSim {
         let rt = new_runtime();
         // inside block_on, so that tasks spawned during construction queue FIFO with later ones
         let (net, events, driver) = rt.block_on(async {
             set_store_overrides(store);
+            ant_networking::verif_hooks::set_local_cmd_channel_size(chan);
             let mut b = NetworkBuilder::new(keypair.clone(), true);
             b.listen_addr("127.0.0.1:0".parse::<SocketAddr>().unwrap());
             let r = b.build_node(root.to_path_buf()).expect("build_node");
             set_store_overrides(None);
+            ant_networking::verif_hooks::set_local_cmd_channel_size(None);
             r
         });
         let peer = PeerId::from(keypair.public());
